@@ -21,7 +21,7 @@ BOUNDS = {
              "back arc) + an 8-arc variant with duplicate arcs and a self loop, string labels, goal as predicate, arc presence symbolic Bools read lazily, weights unbounded non-negative Reals, astar "
              "heuristic = ANY consistent function (symbolic h(v)), max_cost / max_iter symbolic; bellman_ford / floyd_warshall / "
              "dijkstra_edges: every arc set on 3 nodes (incl. self loops: 2^9) is too many, so: all 64 loop-free arc sets on 3 nodes + "
-             "12 named topologies on 3-4 nodes with self loops / duplicate arcs, weights unbounded Reals of any sign; astar_grid: every "
+             "12 named topologies on 3-4 nodes with self loops / duplicate arcs + (floyd_warshall) every labelling of a 3-arc path through 4 nodes with and without shortcut, weights unbounded Reals of any sign; astar_grid: every "
              "3x3 and 2x3 layout over {free, blocked, terrain}, 4- and 8-neighbour, every start/goal pair reduced by fixing start=(0,0) "
              "and all goals, terrain cost symbolic >= 1",
     "thorough": "quick with astar on the complete digraph and the 12-arc dirty variant + 5-node sparse skeletons (named + VERIF_SEED-sampled, <=8 potential arcs) for dijkstra/astar/bfs/dfs; all arc "
@@ -460,12 +460,20 @@ def items(tier, rng):
         for sub in itertools.combinations(K3, k):
             topo.append((3, list(sub)))
     topo += list(NAMED_EDGE.values())
+    # every labelling of a 3-arc path through 4 nodes (intermediate labels in every order), alone and with a direct shortcut arc
+    for perm in itertools.permutations(range(4)):
+        arcs = [(perm[0], perm[1]), (perm[1], perm[2]), (perm[2], perm[3])]
+        topo.append((4, arcs))
+        if perm[0] < perm[3]:
+            topo.append((4, arcs + [(perm[0], perm[3])]))
     if not q:
         for k in range(0, 6):
             for sub in itertools.combinations(K4, k):
                 topo.append((4, list(sub)))
     for (n, arcs) in topo:
         for algo in ("bellman_ford", "dijkstra_edges"):
+            if n == 4 and len(arcs) in (3, 4) and (n, arcs) not in list(NAMED_EDGE.values()):
+                continue  # the permuted-path family is for the all-pairs solver
             for target in (None, n - 1):
                 out.append({"name": "%s_%d_%s" % (algo, n, "".join("%d%d" % a for a in arcs)), "harness": "h_edges",
                             "params": {"algo": algo, "n": n, "arcs": arcs, "src": 0, "target": target}})
